@@ -92,6 +92,8 @@ def _correspondence_once(ctx, rep=0):
                 if e.spline.get('B'):
                     # keep away from the tail junction (a kink): resample atoms placed on the bound
                     x = torch.where((x.abs() - e.spline['B']).abs() < 1e-6, x * 0.37, x)
+                if not (e.kind == 'nonlin' and e.extra['cls'] == 'LeakyReLU') and (e.dom_inv if inverse else e.dom_fwd) is None and not e.spline:
+                    x.view(-1)[0] = 0.0     # exactly zero: a smooth point, but a classic NaN-gradient trap for masked/where code
                 c = R.make_context(e, 2, gen, torch.float64)
                 J = leaves_job(e, t, x, c, inverse, gen)
                 if J is None:
